@@ -755,10 +755,11 @@ func (s *State) equalizedGroups(aName, bName string) bool {
 		// Type of object-group differs.
 		return false
 	}
+	// Group from Netspoc has already been found on or transferred to device.
+	if gb.ready {
+		return ga.name == gb.name
+	}
 	if ga.needed {
-		if gb.ready {
-			return ga.name == gb.name
-		}
 		s.findGroupOnDevice(bName)
 		return false
 	}
